@@ -557,6 +557,15 @@ def c14_one(w, inp, c):
             miss = len(exp) - len(got)
             w.violation('C14:iter-misses-nested-code' if miss > 0 else 'C14:iter-yields-extra' if miss < 0 else 'C14:iter-wrong-elements', inp,
                         {'code_name': k.co_name, 'firstlineno': k.co_firstlineno, 'expected': len(exp), 'got': len(got)})
+        else:
+            # "each equal to what decoding that nested code object on its own gives": equal by the library's own ==
+            # (and hash), not only by my serialization - seeded change C14-r7 (NaN constants compared by value)
+            for g, x in zip(sorted(got, key=ser.s_data), sorted(exp, key=ser.s_data)):
+                eq, e3 = try_(lambda: (g == x) and (x == g) and hash(g) == hash(x))
+                if e3 is not None or not eq:
+                    w.violation('C14:iter-element-not-equal-to-standalone-decoding', inp,
+                                {'code_name': k.co_name, 'firstlineno': k.co_firstlineno, 'nested': x.name,
+                                 'error': O.exc_str(e3) if e3 is not None else None})
     allgot = list(d.all_code_data())
     allexp = [CodeData.from_code(k) for k in corpus.all_code(c)]
     if not allgot or ser.s_data(allgot[0]) != ser.s_data(d):
